@@ -212,6 +212,17 @@ def tiny_step_scenarios():
                  tds=dict(tstep=2e-5, fixt=1, shrinkt=1, no_tqdm=1))]
 
 
+def init_then_run_scenarios(case="kundur/kundur_full.json"):
+    """TDS.init() called explicitly before TDS.run(), with events at the start time, inside and at the end."""
+    tg = TARGETS[case]
+    out = []
+    for tstep, times, segs in [(1 / 30, [0.0], [0.2]), (0.1, [0.0, 0.15], [0.3]), (1 / 30, [0.1], [0.1, 0.3]), (0.05, [], [0.2])]:
+        evs = [dict(add="Toggle", model=tg["model"], dev=tg["devs"][0], t=t) for t in times]
+        out.append(dict(sid="init-then-run[ts=%.4g|ev=%s|seg=%s]" % (tstep, ",".join("%.6g" % t for t in times), "/".join("%.6g" % x for x in segs)),
+                        case=case, events=evs, segs=segs, family="float", explicit_init=True, tds=dict(tstep=tstep, fixt=1, no_tqdm=1)))
+    return out
+
+
 def late_schedules(case="kundur/kundur_full.json"):
     """Events beyond 10 s (where a relative tolerance of 1e-5 is wider than the 0.1 ms bracket around an event time), also
     two events 0.2 ms apart and a split exactly at an event."""
